@@ -15,15 +15,15 @@ def main(tier):
     res = core.Result()
     base = {"conc": [0, 1, 1, 2, 5, 120, 255], "spawn": [0, 1, 3, 120, 255], "max_rcpts": 6, "max_msgs": 4,
             "hold_reports": 0.45, "dup_rcpt": 0.25, "p_term_restart": 0.1, "max_idle_advances": 5}
-    res.merge(histrun.run(PROP, b, core.scaled(400 if quick else 5000), base, ORACLES, salt="h"))
+    res.merge(histrun.run(PROP, b, core.scaled(1200 if quick else 10000), base, ORACLES, salt="h"))
     # crashes at quiescent points (completed writes kept): a recipient whose mark was written must not be attempted again
-    res.merge(histrun.run(PROP, b, core.scaled(150 if quick else 2000), dict(base, p_crash=0.15, conc=[1, 2, 5], spawn=[3, 120]),
+    res.merge(histrun.run(PROP, b, core.scaled(500 if quick else 4000), dict(base, p_crash=0.15, conc=[1, 2, 5], spawn=[3, 120]),
                           ORACLES, salt="ck"))
     # crash sweep at call granularity for fixed scenarios
     prof = {"max_msgs": 3, "p_term_restart": 0.0, "max_rcpts": 4, "dup_rcpt": 0.3}
-    for idx in histrun.pick_scenarios(PROP, b, "sw", prof, 1 if quick else 4):
+    for idx in histrun.pick_scenarios(PROP, b, "sw", prof, 2 if quick else 6):
         calls, h = histrun.reference_calls(PROP, b, idx, "sw", prof)
-        plans = histrun.crash_plans(calls, every=2 if quick else 1)
+        plans = histrun.crash_plans(calls, every=1)
         res.merge(histrun.run_sweep(PROP, b, idx, "sw", prof, ORACLES, plans))
     # one failing stat()/read()/open()/write() inside qmail-send per run (transient I/O trouble must not lead to a second
     # pass on the same message or to an attempt for a finished recipient; a failed MARK write legitimately does)
